@@ -182,6 +182,9 @@ func (t *Trace) RUnlock() error {
 	return err
 }
 func (t *Trace) CheckReservedLock() (bool, error) {
+	// (before the probe: the moment between the reader's look at the journal
+	// and its question whether the journal's owner is alive)
+	t.emit(Event{"prereserved", 0})
 	ok, err := t.P.CheckReservedLock()
 	t.emit(Event{"reserved", 0})
 	return ok, err
